@@ -312,6 +312,7 @@ FSTR_TEXT = st.text(alphabet='abc XYZ019?=.-_', min_size=0, max_size=6)
 def fstring(draw, int_names, list_names):
     """-> dict(spelling, body)   body: f-string content without prefix and quotes."""
     parts = []
+    own_quote = False
     quote = draw(st.sampled_from(["'", '"']))
     n = draw(st.integers(1, 3))
     for i in range(n):
@@ -323,6 +324,10 @@ def fstring(draw, int_names, list_names):
         if list_names and draw(st.integers(0, 3)) == 0:
             ex = f'len({list_names[0]})'
         conv = draw(st.sampled_from(['', '', '!r', ':>4', ':03d', '!s']))
+        if i == 0 and draw(st.integers(0, 5)) == 0:
+            # a string literal inside the replacement field that uses the quote of the f-string itself (legal since python 3.12)
+            ex = f'len({quote}ab{quote}) + {ex}'
+            own_quote = True
         parts.append('{' + ex + conv + '}')
     parts.append(draw(FSTR_TEXT))
     if draw(st.integers(0, 3)) == 0:
@@ -333,4 +338,6 @@ def fstring(draw, int_names, list_names):
         body += " it's" if quote == '"' else ' say "x"'
     body = body.rstrip() + '.'
     spelling = draw(st.sampled_from(['f-plain', 'f-plain', 'implicit', 'implicit', 'dq', 'sq', 'bare']))
-    return {'spelling': spelling, 'quote': quote, 'body': body}
+    if own_quote and spelling in ('dq', 'sq', 'bare'):
+        spelling = 'implicit'       # (the spellings without the f'..' wrapper are wrapped - and their quotes escaped - by the library)
+    return {'spelling': spelling, 'quote': quote, 'body': body, 'own_quote': own_quote}
